@@ -207,4 +207,71 @@ theorem xrcmd_meets (w : World) (errCh : Bool) (l r c : List Char) :
       · left
         simpa using hok
 
+/-! ### the back-off is bounded -/
+
+/-- seconds spent in sleep() -/
+def sleepSum (evs : List Ev) : Nat :=
+  (evs.map fun e => match e with
+    | .sleep n => n
+    | _ => 0).sum
+
+theorem sleepSum_append (a b : List Ev) : sleepSum (a ++ b) = sleepSum a + sleepSum b := by
+  simp [sleepSum, List.map_append, List.sum_append]
+
+/-- the loop doubles its pause from `timo` and gives up once the pause would exceed 16 s -/
+theorem connectLoop_sleep_bound (w : World) (cs : List Conn) (lp timo : Nat) :
+    sleepSum (connectLoop w cs lp timo []).2 ≤ 32 - timo := by
+  induction cs generalizing lp timo with
+  | nil => simp [connectLoop, sleepSum]
+  | cons c rest ih =>
+    simp only [connectLoop]
+    cases w.resv lp with
+    | none => simp [sleepSum]
+    | some q =>
+      cases c with
+      | ok => simp [sleepSum]
+      | addrInUse =>
+        simp only []
+        rw [connectLoop_acc, sleepSum_append]
+        have := ih (q - 1) timo
+        simp only [sleepSum, List.nil_append, List.map_append, List.map_cons, List.map_nil, List.sum_append,
+          List.sum_cons, List.sum_nil] at this ⊢
+        omega
+      | refused =>
+        simp only []
+        by_cases ht : timo ≤ 16
+        · by_cases hs : w.sleeps = true
+          · simp only [ht, hs, if_true]
+            rw [connectLoop_acc, sleepSum_append]
+            have := ih q (timo * 2)
+            simp only [sleepSum, List.nil_append, List.map_append, List.map_cons, List.map_nil, List.sum_append,
+              List.sum_cons, List.sum_nil] at this ⊢
+            omega
+          · simp only [ht, hs, if_true, Bool.false_eq_true, if_false]
+            simp only [sleepSum, List.nil_append, List.map_append, List.map_cons, List.map_nil, List.sum_append,
+              List.sum_cons, List.sum_nil]
+            omega
+        · simp only [ht, if_false]
+          simp [sleepSum]
+      | other => simp [sleepSum]
+
+/-- nothing outside the loop sleeps -/
+theorem xrcmd_sleepSum (w : World) (errCh : Bool) (l r c : List Char) :
+    sleepSum (xrcmd w errCh l r c).evs = sleepSum (connectLoop w w.conns (IPPORT_RESERVED - 1) 1 []).2 := by
+  unfold xrcmd finish
+  cases hl : connectLoop w w.conns (IPPORT_RESERVED - 1) 1 [] with
+  | mk o pre =>
+    cases o with
+    | none => rfl
+    | some p =>
+      simp only []
+      repeat' split
+      all_goals simp [sleepSum, List.sum_append]
+
+/-- xrcmd spends at most 1 + 2 + 4 + 8 + 16 = 31 seconds asleep, whatever the network does -/
+theorem xrcmd_sleeps_at_most_31 (w : World) (errCh : Bool) (l r c : List Char) :
+    sleepSum (xrcmd w errCh l r c).evs ≤ 31 := by
+  rw [xrcmd_sleepSum]
+  exact connectLoop_sleep_bound w w.conns (IPPORT_RESERVED - 1) 1
+
 end PdshVerif.Exec.Xrcmd.Spec
